@@ -79,7 +79,7 @@ def _to_float(x):
 
 
 class Obligation:
-    __slots__ = ("label", "kind", "goal", "impl", "oracle", "key", "msg", "value_ok", "delta", "validate")
+    __slots__ = ("label", "kind", "goal", "impl", "oracle", "key", "msg", "value_ok", "delta", "validate", "replay_label")
 
     def __init__(self, label, kind, goal=None, impl=None, oracle=None, key=None, msg=""):
         self.label, self.kind, self.goal, self.impl, self.oracle, self.key, self.msg = (
@@ -87,6 +87,7 @@ class Obligation:
         self.value_ok = None
         self.delta = None
         self.validate = True
+        self.replay_label = None
 
 
 class Env:
@@ -102,6 +103,7 @@ class Env:
         self.backend = None
         self._labels = set()
         self.sym_only = False      # obligations stated while True exist only in symbolic mode (no twin/validation)
+        self.replay_as = None      # label of the concrete-mode obligation that replays the ones stated while set
 
     # ---- symbols ------------------------------------------------------------------------------
     def sym(self, name, positive=False, nonneg=False, lo=None, hi=None):
@@ -210,6 +212,7 @@ class Env:
                 ob.delta = abs(i - o)
                 ob.value_ok = bool(ob.delta <= REL_TOL * max(abs(o), abs(i), 1) + ABS_TOL)
         ob.validate = validate and not self.sym_only
+        ob.replay_label = self.replay_as
         self.obligations.append(ob)
         return ob
 
@@ -236,6 +239,7 @@ class Env:
             ob = Obligation(label, "holds", key=key)
             ob.value_ok = c
         ob.validate = not self.sym_only
+        ob.replay_label = self.replay_as
         self.obligations.append(ob)
         return ob
 
@@ -245,6 +249,7 @@ class Env:
         if self.mode != "sym":
             ob.value_ok = False
         ob.validate = not self.sym_only
+        ob.replay_label = self.replay_as
         self.obligations.append(ob)
         return ob
 
@@ -401,7 +406,7 @@ def run_item(harness, item, *, tier="quick", max_paths=256, timeout_ms=20000, ce
             if nk >= 2:      # at most two candidate counterexamples per obligation key and work item
                 dup_keys[ob.key] = dup_keys.get(ob.key, 0) + 1
                 continue
-            pending_replays.append({"label": ob.label, "key": ob.key, "kind": ob.kind, "model": v.model,
+            pending_replays.append({"replay_label": ob.replay_label or ob.label, "label": ob.label, "key": ob.key, "kind": ob.kind, "model": v.model,
                                     "detail": (ob.msg + " " + v.detail).strip(), "cell": v.cell,
                                     "goal": ob.goal, "hyps": out["hyps"]})
         for ob, v in out["unknown"]:
@@ -436,7 +441,7 @@ def run_item(harness, item, *, tier="quick", max_paths=256, timeout_ms=20000, ce
         # ---- replay of counterexamples -----------------------------------------------------------
         symbols = dict(CTX.symbols)
         for pr in pending_replays:
-            rec = {"label": pr["label"], "key": pr["key"], "detail": pr["detail"][:500], "cell": pr["cell"],
+            rec = {"label": pr["replay_label"], "sym_label": pr["label"], "key": pr["key"], "detail": pr["detail"][:500], "cell": pr["cell"],
                    "reproduced": False, "model": _model_str(pr["model"]), "tries": 0}
             model = pr["model"]
             blocked = []
@@ -444,7 +449,7 @@ def run_item(harness, item, *, tier="quick", max_paths=256, timeout_ms=20000, ce
                 rec["tries"] = attempt + 1
                 try:
                     cenv = conc_run(harness, model, tier=tier, seed=seed, params=params)
-                    hit = [o for o in cenv.obligations if o.label == pr["label"]]
+                    hit = [o for o in cenv.obligations if o.label == pr["replay_label"]]
                     if hit and hit[0].value_ok is False:
                         rec["reproduced"] = True
                         rec["model"] = _model_str(model)
